@@ -47,7 +47,8 @@ pub fn run(ctx: &Ctx) -> bool {
         "C09" => c09::run(ctx),
         "C10" => {
             c10::run(ctx);
-            c10::run_filtered(ctx)
+            c10::run_filtered(ctx);
+            c10::run_api(ctx)
         }
         "C11" => {
             c11::run(ctx);
